@@ -19,6 +19,7 @@ type fwStub struct {
 	src     lint.LintSource
 	applies bool
 	panics  bool
+	early   bool
 	status  lint.LintStatus
 	details string
 	eff     time.Time
@@ -60,6 +61,11 @@ func fwSetup(kind, k int, scoped, windowed, mayPanic bool) (lint.Registry, []*fw
 		st.details = zz.String()
 		st.s = lint.ZZAdd(r, kind, i, st.name, st.src, st.eff, st.ineff)
 		lint.ZZSetBehaviour(i, st.applies, st.panics, st.status, st.details)
+		if st.panics {
+			// the panic may come from the applicability test or from the rule body
+			st.early = zz.Bool()
+			lint.ZZSetPanicsEarly(i, st.early)
+		}
 		stubs = append(stubs, st)
 	}
 	lint.ZZClearLog()
@@ -72,6 +78,11 @@ func fwLint(kind int, r lint.Registry) (*ResultSet, time.Time, *x509.Certificate
 	switch kind {
 	case 0:
 		c := zz.Lazy[x509.Certificate]("c")
+		if zz.Param("fw.outofscope", 0) > 0 {
+			// a client-authentication certificate: outside the TLS, S/MIME and code-signing scopes
+			c.ExtKeyUsage = []x509.ExtKeyUsage{x509.ExtKeyUsageClientAuth}
+			c.UnknownExtKeyUsage, c.PolicyIdentifiers, c.EmailAddresses, c.OtherNames = nil, nil, nil, nil
+		}
 		return LintCertificateEx(c, r), c.NotBefore, c
 	case 1:
 		c := zz.Lazy[x509.RevocationList]("crl")
@@ -98,7 +109,7 @@ func fwCount(rs *ResultSet, st lint.LintStatus) int {
 func VerifC01ResultSet() {
 	kind := zz.Param("fw.kind", 0)
 	k := zz.Param("fw.k", 2)
-	r, stubs := fwSetup(kind, k, false, false, kind == 0)
+	r, stubs := fwSetup(kind, k, zz.Param("fw.scoped", 0) > 0, false, kind == 0 && zz.Param("fw.scoped", 0) == 0)
 	rs, _, _ := fwLint(kind, r)
 	zz.Assert(rs != nil, "linting a non-nil object returns a result set")
 	if rs == nil {
@@ -206,6 +217,9 @@ func VerifFrameworkOrder() {
 	}
 	zz.Assert(news == 1, "exactly one instance is created per execution")
 	switch {
+	case st.panics && st.early:
+		zz.Cover("applicability test panics")
+		zz.Assert(res.Status == lint.Fatal, "a panic in a certificate lint's applicability test is reported as fatal")
 	case !st.applies:
 		zz.Cover("does not apply")
 		zz.Assert(res.Status == lint.NA, "an object the applicability test rejects gets NA")
